@@ -1017,6 +1017,37 @@ pub fn probe_messages() -> i32 {
         let mac = Value::Array(vec![Value::Bytes(vec![]), Value::Map(vec![]), Value::Null, Value::Bytes(vec![1]), Value::Array(vec![rcp.clone()])]);
         if let Err(e) = CoseMac::from_cbor_value(mac.clone()) { if report("C09", format!("COSE_Mac {} (recipients {} deep): crate rejects it ({:?}), its CDDL says accept", hex(&ser(&mac)), depth, e)) { return 1; } }
     }
+    // arity: every prefix of a well-formed structure and every extension by one or two further elements (of the kinds an
+    // optional trailing element could have) against the CDDL
+    {
+        let rcp0 = Value::Array(vec![Value::Bytes(vec![]), Value::Map(vec![]), Value::Null]);
+        let sig0 = Value::Array(vec![Value::Bytes(vec![]), Value::Map(vec![]), Value::Bytes(vec![1])]);
+        let full: [Vec<Value>; 8] = [
+            vec![Value::Bytes(vec![]), Value::Map(vec![]), Value::Null, Value::Bytes(vec![1])],
+            vec![Value::Bytes(vec![]), Value::Map(vec![]), Value::Null, Value::Array(vec![sig0.clone()])],
+            vec![Value::Bytes(vec![]), Value::Map(vec![]), Value::Bytes(vec![1])],
+            vec![Value::Bytes(vec![]), Value::Map(vec![]), Value::Null, Value::Bytes(vec![1]), Value::Array(vec![rcp0.clone()])],
+            vec![Value::Bytes(vec![]), Value::Map(vec![]), Value::Null, Value::Bytes(vec![1])],
+            vec![Value::Bytes(vec![]), Value::Map(vec![]), Value::Null, Value::Array(vec![rcp0.clone()])],
+            vec![Value::Bytes(vec![]), Value::Map(vec![]), Value::Null],
+            vec![Value::Bytes(vec![]), Value::Map(vec![]), Value::Null, Value::Array(vec![rcp0.clone()])],
+        ];
+        let extras = [Value::Null, Value::Array(vec![]), Value::Array(vec![rcp0.clone()]), Value::Bytes(vec![]), Value::Map(vec![])];
+        for kind in 0..8usize {
+            let mut arrays: Vec<Vec<Value>> = (0..=full[kind].len()).map(|k| full[kind][..k].to_vec()).collect();
+            for e1 in &extras { let mut a = full[kind].clone(); a.push(e1.clone()); arrays.push(a.clone()); for e2 in &extras { let mut b2 = a.clone(); b2.push(e2.clone()); arrays.push(b2); } }
+            if kind == 7 { for e1 in &extras { let mut a = full[kind][..3].to_vec(); a.push(e1.clone()); arrays.push(a); } }
+            for a in arrays {
+                n += 1;
+                let v = Value::Array(a);
+                let want = msg_ref(kind, &v);
+                let got = match kind { 0 => CoseSign1::from_cbor_value(v.clone()).is_ok(), 1 => CoseSign::from_cbor_value(v.clone()).is_ok(), 2 => CoseSignature::from_cbor_value(v.clone()).is_ok(),
+                    3 => CoseMac::from_cbor_value(v.clone()).is_ok(), 4 => CoseMac0::from_cbor_value(v.clone()).is_ok(), 5 => CoseEncrypt::from_cbor_value(v.clone()).is_ok(),
+                    6 => CoseEncrypt0::from_cbor_value(v.clone()).is_ok(), _ => CoseRecipient::from_cbor_value(v.clone()).is_ok() };
+                if got != want { if report("C09", format!("{} {} (array of {} elements): crate {} it, its CDDL says {}", names[kind], hex(&ser(&v)), match &v { Value::Array(a) => a.len(), _ => 0 }, if got { "accepts" } else { "rejects" }, if want { "accept" } else { "reject" })) { return 1; } }
+            }
+        }
+    }
     for _ in 0..scale(4000) {
         let kind = r.below(8) as usize;
         let mut a: Vec<Value> = if kind == 7 { match gen_recipient(&mut r, 0) { Value::Array(a) => a, _ => vec![] } } else { shapes[kind].iter().map(|w| gen_slot(&mut r, *w)).collect() };
